@@ -137,6 +137,20 @@ def run(ctx, replay=None):
 
     trajectories_part(ctx)
     returns_part(ctx)
+    recording_part(ctx)
+
+
+def recording_part(ctx):
+    """recording.py / utils/space_builders.py against the GVRecording machine (beyond the listed property: drift only)"""
+    from harness import recordreplay
+
+    n = mism = nb = 0
+    for stateless, depth in ((True, 1), (False, 4 if ctx.quick else 5)):
+        behs = recordreplay.behaviours(ctx, depth, stateless)
+        a, b = recordreplay.replay(ctx, behs)
+        n, mism, nb = n + a, mism + b, nb + len(behs)
+    ctx.add_counts(evaluations=n, traces=nb)
+    ctx.add_part('recording / space-builder machine (GVRecording) replayed on the real classes', behaviours=nb, operations=n, mismatches=mism)
 
 
 def returns_part(ctx):
